@@ -134,7 +134,12 @@ func loadSources(spec string) ([]projSrc, error) {
 				return nil
 			}
 			if cs.X.Res == "ok" || all {
-				out = append(out, projSrc{name: "model:" + strings.Join(cs.Blocks, ","), text: renderTokens(cs.Doc, false, canon).text})
+				lo := canon
+				if os.Getenv("VH_WIDE_ANN") != "" {
+					// annotations with runs of white space (the catalog holds them collapsed): every second document with /* */
+					lo = layout{nl: "\n", wideAnn: true, mlAnn: nModel%2 == 0}
+				}
+				out = append(out, projSrc{name: "model:" + strings.Join(cs.Blocks, ","), text: renderTokens(cs.Doc, false, lo).text})
 			}
 			return nil
 		})
@@ -191,6 +196,20 @@ func loadSources(spec string) ([]projSrc, error) {
 				}
 			}
 			out = append(out, projSrc{name: fmt.Sprintf("types:%d", len(out)+1), text: renderTypeGraph(cs.G, cs.Site)})
+			return nil
+		})
+		if err != nil {
+			return nil, err
+		}
+	case strings.HasPrefix(spec, "cells:"):
+		// the schema-feature matrix of MC_C17 (every rule x value at property / object level in TYPE / response / request
+		// position): documents on which the OpenAPI export often answers with an error value
+		err := forEachEmitted(spec[6:], "E", func(js string) error {
+			var c c17Cell
+			if err := json.Unmarshal([]byte(js), &c); err != nil {
+				return err
+			}
+			out = append(out, projSrc{name: fmt.Sprintf("cell:%s/%s=%s/%s/%v", c.Level, c.Rule, c.Value, c.Place, c.Shortcut), text: c17Document(c)})
 			return nil
 		})
 		if err != nil {
